@@ -172,6 +172,52 @@ def class_zoo(rng, S):
     return out
 
 
+def corner_recipes(rng, S):
+    """Inputs that need a specific unusual shape: scalar multiplication dispatch on `is_linear`
+    (`f * s` builds s*f for functionals flagged linear), zero scalars, nested translations."""
+    n = S.size
+    b = fc.rvec(rng, n, -4, 4, 2, nonzero=True)
+    return [
+        ['rscal', 2.0, ['lin', b, 0.0]],                       # truly linear: s*f == f(s.)
+        ['rscal', 2.0, ['lin', b, 1.0]],                       # affine: must NOT be flagged linear
+        ['rscal', -0.5, ['ssum', 1.0, ['lin', b, 0.0]]],
+        ['rscal', 2.0, ['qp', 0.0, b, 0.0, ['zero']]],         # linear
+        ['rscal', 2.0, ['qp', 0.0, None, 5.0, ['zero']]],      # constant 5, flagged linear by the code
+        ['rscal', 3.0, ['qp', 0.0, b, -1.0, ['lin', b, 0.0]]],
+        ['rscal', 2.0, ['lscal', 3.0, ['lin', b, 0.0]]],
+        ['rscal', 2.0, ['sum', ['lin', b, 0.0], ['zero']]],
+        ['trans', fc.rvec(rng, n), ['trans', fc.rvec(rng, n), ['l2sq']]],
+        ['rscal', 2.0, ['trans', fc.rvec(rng, n), ['lin', b, 0.0]]],
+    ]
+
+
+def known_tag(r):
+    """Words identifying special input classes (matched by known_findings.json)."""
+    def is_lin(t):
+        k = t[0]
+        if k == 'zero':
+            return True
+        if k == 'const':
+            return t[1] == 0
+        if k == 'lin':
+            return t[2] == 0
+        if k in ('lscal', 'rscal'):
+            return is_lin(t[2])
+        if k == 'sum':
+            return is_lin(t[1]) and is_lin(t[2])
+        if k == 'qp':
+            return t[1] == 0 and is_lin(t[4])
+        return False
+
+    def has(t):
+        if not isinstance(t, (list, tuple)) or not t or not isinstance(t[0], str):
+            return False
+        if t[0] == 'rscal' and t[2][0] == 'qp' and t[2][1] == 0 and t[2][3] != 0 and is_lin(t[2][4]):
+            return True
+        return any(has(u) for u in t[1:])
+    return ' [scalar-multiple-of-QuadraticPerturb(a=0,constant!=0)-of-linear]' if has(r) else ''
+
+
 def leaf_domain(r):
     """'pos' if the tree needs x > 0, 'lt1' if x < 1, else None (KL families)."""
     ks = fc.recipe_classes(r)
@@ -239,7 +285,8 @@ def check_tree(ctx, r, S, stream, via_ops, lines, pend, n_pts=2, oracle_only=Fal
     queued (lines/pend) for the driver batch."""
     rng = ctx.rng
     desc0 = {'space': S.name, 'recipe': r, 'via_ops': via_ops, 'stream': stream}
-    key0 = 'space={}({}) tree={}'.format(S.name, S.kind, '/'.join(fc.recipe_classes(r)))
+    key0 = 'space={}({}) tree={}{}'.format(S.name, S.kind, '/'.join(fc.recipe_classes(r)),
+                                           known_tag(r))
     st, f = safe_call(fc.build, r, S, via_ops)
     if st != 'ok':
         ctx.err(st.split(':')[1])
@@ -505,12 +552,14 @@ def run(ctx, deep=False):
     spaces = fc.all_spaces()
     coverage_by_introspection(ctx)
     scalar_functionals(ctx)
-    n_trees = 14 if quick else 60
+    n_trees = 70 if quick else 400
     max_depth = 3 if quick else 4
     for S in spaces:
         # class-by-class zoo (general stream, shallow)
         for r in class_zoo(rng, S):
             check_tree(ctx, r, S, 'general', True, lines, pend, n_pts=2 if quick else 4)
+        for r in corner_recipes(rng, S):
+            check_tree(ctx, r, S, 'exact', True, lines, pend, n_pts=2)
         for i in range(n_trees):
             exact = rng.random() < 0.6
             depth = rng.randint(1, max_depth)
